@@ -217,6 +217,10 @@ class Exec:
         for u in range(q['unrelated']):
             ka_rrs.append(rp.wire_rr_of_ident(('A', 'elsewhere.local.', '0a0a0a%02x' % u), 120))
         exp, dont_care, allowed, producers = self.model.answers(questions, known)
+        N = rp.strip_nsec_owner      # the owner name of NSEC records is outside the claim
+        exp = {N(i): t for i, t in exp.items()}
+        dont_care = {N(i) for i in dont_care}
+        allowed = {N(i): t for i, t in allowed.items()}
         via = q['via']
         st_ = self.stats
         st_['queries'] += 1
@@ -258,7 +262,7 @@ class Exec:
                 continue
             an_ids = set()
             for r in m['an']:
-                ident = rp.ident_of_wire_rr(r)
+                ident = N(rp.ident_of_wire_rr(r))
                 if ident is None:
                     raise Violation('reply carries a record of a foreign type', dict(det, type=r['type']), tag='foreign-type')
                 an_ids.add(ident)
@@ -266,7 +270,7 @@ class Exec:
                     raise Violation('same record offered with two TTLs', dict(det, ident=ident), tag='ttl-conflict')
                 got[ident] = r['ttl']
             for r in m['ar']:
-                ident = rp.ident_of_wire_rr(r)
+                ident = N(rp.ident_of_wire_rr(r))
                 if ident is None or ident not in allowed:
                     if ident in dont_care:
                         continue
